@@ -72,12 +72,21 @@ Fixpoint pass_loop (fuel p : nat) (fs : list file) (st : fstate) : list (list fi
            end
   end.
 
-(* returns (the files formatted in each pass, in dispatch order; the return value of format_files) *)
+(* any_changes = any_changes or any(results), accumulated over the passes (pass p dispatched batch number p) *)
+Fixpoint log_changes (p : nat) (log : list (list file)) : bool :=
+  match log with
+  | [] => false
+  | batch :: tl => existsb (fun f => chg f p) batch || log_changes (S p) tl
+  end.
+
+(* returns (the files formatted in each pass, in dispatch order; the return value of format_files).
+   Since the repair of hunt item C06-4 the return value is the accumulated any_changes, no longer the
+   per-folder flags of the last pass. *)
 Definition format_files_model (max_passes : nat) (filenames : list file) : list (list file) * bool :=
   let fs := sort_files filenames in
   let st0 := map (fun d => (d, (true, max_passes))) (folders_of fs) in
   let '(log, st) := pass_loop max_passes 1 fs st0 in
-  (log, existsb (fun e => fst (snd e)) st).
+  (log, log_changes 1 log).
 
 End Files.
 
